@@ -505,8 +505,12 @@ def rule_task_closure(m, rep, rid='R4', handler=False, parts=None):
                     for dt, labels, sbi in guards_of(T, h) or []:
                         if norm(dt)[0] == 'discr' and ('variant', 'Some') in labels:
                             if sbi in err_region or sbi == e:
-                                # handler tested after the failure: from its Some edge every path passes h
+                                # handler tested after the failure: from its Some edge every path passes h ...
                                 tgt = [s for s in b.succs(sbi, False) if h in reach(b, [s])]
+                                # ... and every failure gets as far as that test (no other condition - "same kind as the
+                                # previous failure", a rate limit - decides whether the handler is asked at all)
+                                if sbi != e and not all(C.must_pass(b, s_, exits, {sbi}) for s_ in err_e):
+                                    bad.append('with a handler configured a failure can go unreported (the handler is not consulted on every failure path)')
                             else:
                                 # handler tested before the emit: from the Err edge every path passes h
                                 tgt = list(err_e)
@@ -802,9 +806,10 @@ def rule_isolation(m, rep, rid='R1'):
 
 
 # ------------------------------------------------------------------ C15-R3/R4, C11-R4
-def rule_counters(m, rep):
+def rule_counters(m, rep, only=None):
+    """only: restrict to these counters (C11 talks about `panics` only) and skip the queued() arithmetic"""
     cad = m.cad
-    if not m.need_counters(rep, 'C15-R3', ('submitted', 'drained', 'panics')):
+    if not m.need_counters(rep, 'C15-R3', only or ('submitted', 'drained', 'panics')):
         return
     ops = []
     # a counter may be a private newtype around the atomic: its methods are analysed where they are applied to a counter
@@ -838,9 +843,9 @@ def rule_counters(m, rep):
                 T = Terms(b)
             ct = norm(T.call_term(bi))
             for cname, fld in m.counters.items():
-                if _path_has_field(ct[2][0], fld):
+                if _path_has_field(ct[2][0], fld) and (only is None or cname in only):
                     ops.append((cname, b, bi, ct))
-    rep.floor('C15-R3', 'writes to the three counters', len(ops), 3)
+    rep.floor('C15-R3', 'writes to the three counters' if only is None else 'writes to %s' % '/'.join(only), len(ops), 3 if only is None else len(only))
     for cname, b, bi, ct in ops:
         rep.sites()
         opn = ct[1].rsplit('::', 1)[-1]
@@ -853,6 +858,8 @@ def rule_counters(m, rep):
     for cname, ws in sorted(writers.items()):
         ok = len(ws) == 1
         rep.ob('C15-R3', '%s/single-writer-site' % cname, ok, '', '%s is incremented from %s' % (cname, sorted(ws)))
+    if only is not None:
+        return
     # queued()
     # the public queued(), with whatever private helper computes it inlined
     qb = cad.method(Q, 'queued')
